@@ -47,7 +47,11 @@ impl DynamicConstraintsEncoder {
     }
 
     pub fn new_argument<T: LabelType>(&mut self, af: &mut AAFramework<T>, label: T) {
+        let n_arguments = af.n_arguments();
         af.new_argument(label);
+        if af.n_arguments() == n_arguments {
+            return;
+        }
         let arg_id = af.max_argument_id().unwrap();
         let solver_var = self.new_solver_var(SolverVarType::Argument(arg_id));
         match self.semantics {
